@@ -37,8 +37,9 @@ def tree_family(lv: Leaves) -> list:
     L, Tm, M = Dim.of(length=1), Dim.of(time=1), Dim.of(mass=1)
     a, b, c = lv.symbol("a", L), lv.symbol("b", L), lv.symbol("c", Tm)
     q, r, z = lv.quantity("q", L), lv.quantity("r", Tm), lv.quantity("z", Tm, zero=True)
-    f = lv.applied("f(t)", M)
     t = lv.symbol("t", Tm)
+    f = lv.applied("f(t)", M, [t])
+    w = lv.symbolic("w", L)
     pbase = lv.symbol("p", M)
     lv.info["p"]["kind"] = "indexedbase"
     p1 = ("indexed-element", pbase, 1)
@@ -49,7 +50,7 @@ def tree_family(lv: Leaves) -> list:
     def add(label, tree):
         out.append((label, tree))
 
-    leaves = [("a", a), ("b", b), ("c", c), ("q", q), ("r", r), ("z", z), ("f(t)", f), ("p[1]", p1), ("2", 2), ("0", 0), ("a/b", ratio)]
+    leaves = [("a", a), ("b", b), ("c", c), ("q", q), ("r", r), ("z", z), ("f(t)", f), ("p[1]", p1), ("2", 2), ("0", 0), ("a/b", ratio), ("w", w)]
     for nm, tr in leaves:
         add(nm, tr)
     for (n1, t1), (n2, t2) in itertools.product(leaves, repeat=2):
@@ -68,6 +69,13 @@ def tree_family(lv: Leaves) -> list:
     add("Derivative(f(t), t)", Node("Derivative", [f, [t, 1]]))
     add("Derivative(f(t), (t, 2))", Node("Derivative", [f, [t, 2]]))
     add("Derivative(f(t), t, a)", Node("Derivative", [f, [t, 1], [a, 1]]))
+    # the variable of differentiation need not be a plain symbol (Lagrangian forms dL/dx(t), dL/d(dx/dt)): its dimension is inferred like any other operand's
+    g = lv.applied("g(t)", L, [t])
+    dg = Node("Derivative", [g, [t, 1]])
+    add("Derivative(f(t), g(t))", Node("Derivative", [f, [g, 1]]))
+    add("Derivative(f(t), (g(t), 2), t)", Node("Derivative", [f, [g, 2], [t, 1]]))
+    add("Derivative(f(t), Derivative(g(t), t))", Node("Derivative", [f, [dg, 1]]))
+    add("Derivative(a*f(t), t)", Node("Derivative", [Node("Mul", [a, f]), [t, 1]]))
     add("a*Derivative(f(t), t)", Node("Mul", [a, Node("Derivative", [f, [t, 1]])]))
     add("f(t) + Derivative(f(t), t)", Node("Add", [f, Node("Derivative", [f, [t, 1]])]))
     add("f(t) + c*Derivative(f(t), t)", Node("Add", [f, Node("Mul", [c, Node("Derivative", [f, [t, 1]])])]))
